@@ -1,7 +1,7 @@
 /* C01: secp256k1_ecdsa_sign_inner (plain ECDSA path: no sign-to-contract arguments) for every key,
  * message, nonce source (NULL = built-in RFC 6979, the default function pointer, or an arbitrary user
  * callback), optional noncedata and optional recid.  The retry loop is closed by the loop contract of
- * hooks/C01_sign_inner_loop.diff (partial correctness: termination not claimed).
+ * the unit table (engine/units/C01_more.py, no /repo edit) (partial correctness: termination not claimed).
  *   - secp256k1_ecdsa_sig_sign: oracle with LAST-CALL log (gates proved in C01.sig_sign)
  *   - nonce_function_rfc6979_impl: contract with LAST-CALL log (body proved in C01.rfc6979)
  *   - user callback: stub (nonce_stub.c) - writes only nonce32, returns ANY int.
@@ -10,8 +10,6 @@
 #define LOG_NONCE_FN
 #define LOG_EC_COMMIT_SECKEY   /* sign-to-contract branch (dead here: s2c_data32 == NULL) is abstracted so that the loop body stays small */
 #include "assumed_C15.h"
-/* ghost state written inside the retry loop by the contracts above (extends the loop's assigns clause) */
-#define SECP256K1_VERIF_SIGN_LOOP_GHOST NONCE_FN_GHOST, SIG_SIGN_GHOST, EC_COMMIT_SECKEY_GHOST
 #include "src/secp256k1.c"
 #include "post.h"
 #include "C01/nonce_stub.c"   /* stub user nonce callback (not a unit) */
